@@ -22,6 +22,10 @@ pub struct Injected;
 pub struct PState {
     /// a panic unwound during an exclusive hold since the last clear
     pub must: bool,
+    /// ... and at least one such panic came through the Poisonable's own guard / own scoped
+    /// closure / a guard of an enclosing collection (every path except the closure of a
+    /// scoped call whose receiver merely encloses the Poisonable)
+    pub must_direct: bool,
     /// a panic unwound during any hold since the last clear (or the state is uncertain)
     pub may: bool,
 }
@@ -31,6 +35,8 @@ pub struct Model {
     pub poison: BTreeMap<PoisonId, PState>,
     /// Poisonables covered by a hold that is currently unwinding, per thread
     pub in_flight: Vec<Vec<PoisonId>>,
+    /// x was blocking-acquired before y by some sorting collection
+    pub order: std::collections::BTreeSet<(Lid, Lid)>,
 }
 
 impl Model {
@@ -60,6 +66,9 @@ pub struct Probes {
     pub is_poisoned_true: u64,
     pub clear_poison: u64,
     pub known_d5: u64,
+    pub order_seqs: u64,
+    pub quiescent_tries: u64,
+    pub quiescent_try_ok: u64,
 }
 
 pub struct Runner<'a> {
@@ -84,6 +93,9 @@ struct Ctx<'c> {
     acq: &'c Acq,
     flat: &'c [FlatLeaf],
     retry: bool,
+    sorting: bool,
+    /// the receiver of the call is itself a Poisonable
+    root_poisonable: bool,
     shared: bool,
     private: bool,
 }
@@ -94,7 +106,7 @@ struct St<'r, 'a> {
     step: usize,
     opseq: u64,
     /// poison snapshot of the current hold: per flat leaf, per layer (must, may, flying)
-    snap: Vec<Vec<(bool, bool, bool)>>,
+    snap: Vec<Vec<(bool, bool, bool, bool)>>,
     private_poison: BTreeMap<PoisonId, PState>,
 }
 
@@ -102,6 +114,14 @@ struct ClosureScope<'s>(&'s Sched);
 impl Drop for ClosureScope<'_> {
     fn drop(&mut self) {
         self.0.closure_exit();
+    }
+}
+
+fn via_text(direct: bool) -> &'static str {
+    if direct {
+        "via=own-guard-or-own-scoped-closure-or-enclosing-guard"
+    } else {
+        "via=scoped-closure-of-enclosing-value"
     }
 }
 
@@ -138,7 +158,7 @@ impl<'r, 'a> St<'r, 'a> {
     }
 
     fn take_snapshot(&mut self, ctx: &Ctx) {
-        self.snap = ctx.flat.iter().map(|f| f.poison.iter().map(|p| { let (st, fl) = self.pstate(p); (st.must, st.may, fl) }).collect()).collect();
+        self.snap = ctx.flat.iter().map(|f| f.poison.iter().map(|p| { let (st, fl) = self.pstate(p); (st.must, st.may, fl, st.must_direct) }).collect()).collect();
     }
 
     fn expected_held(&self, ctx: &Ctx) -> Vec<(Lid, bool)> {
@@ -157,9 +177,44 @@ impl<'r, 'a> St<'r, 'a> {
                 format!("after {:?} on target {} returned a guard: held {:?}, expected exactly {:?} (lid, shared)", ctx.acq.api, ctx.acq.target, held, exp),
             );
         }
-        let _ = rec;
+        let seq = rec.blocking_seq.clone();
+        self.check_order(ctx, &seq);
         self.take_snapshot(ctx);
         self.probe(|p| p.acquisitions_ok += 1);
+    }
+
+    /// C08: blocking acquisitions made through sorting collections agree on one order
+    fn check_order(&mut self, ctx: &Ctx, seq: &[(Lid, bool)]) {
+        if !ctx.sorting || ctx.acq.api.is_try() {
+            return;
+        }
+        let s = self.s();
+        let lids: Vec<Lid> = seq.iter().map(|x| x.0).collect();
+        self.probe(|p| p.order_seqs += 1);
+        // an owned collection is one indivisible unit, in its own listing order
+        let spec = &self.r.world.spec;
+        for (u, us) in spec.units.iter().enumerate() {
+            let pos: Vec<usize> = us.leaves.iter().filter_map(|l| lids.iter().position(|x| x == l)).collect();
+            if pos.is_empty() {
+                continue;
+            }
+            let contiguous = pos.len() == us.leaves.len() && pos.windows(2).all(|w| w[1] == w[0] + 1);
+            if !contiguous {
+                s.report(Clause::UnitSplit, format!("owned unit {} (leaves {:?}) was not acquired as one contiguous group in its own order: sequence {:?}", u, us.leaves, lids));
+            }
+        }
+        let mut m = self.r.model.lock().unwrap();
+        for i in 0..lids.len() {
+            for j in i + 1..lids.len() {
+                if lids[i] == lids[j] {
+                    continue;
+                }
+                if m.order.contains(&(lids[j], lids[i])) {
+                    s.report(Clause::OrderConflict, format!("{:?} on target {} acquired lock {} before lock {}, but an earlier sorting acquisition took them in the opposite order (sequence {:?})", ctx.acq.api, ctx.acq.target, lids[i], lids[j], lids));
+                }
+                m.order.insert((lids[i], lids[j]));
+            }
+        }
     }
 
     fn after_try_fail(&mut self, ctx: &Ctx, rec: &ApiRec) {
@@ -184,6 +239,8 @@ impl<'r, 'a> St<'r, 'a> {
                 format!("closure of {:?} on target {} entered with held {:?}, expected exactly {:?}", ctx.acq.api, ctx.acq.target, held, exp),
             );
         }
+        let seq = self.s().api_closure_blocking_seq();
+        self.check_order(ctx, &seq);
         self.take_snapshot(ctx);
         self.probe(|p| p.closures += 1);
     }
@@ -195,7 +252,7 @@ impl<'r, 'a> St<'r, 'a> {
             return;
         }
         for (k, &is_err) in layers.iter().enumerate() {
-            let (must, may, flying) = self.snap[i][k];
+            let (must, may, flying, direct) = self.snap[i][k];
             self.probe(|p| {
                 p.poison_layers_checked += 1;
                 if is_err {
@@ -203,10 +260,49 @@ impl<'r, 'a> St<'r, 'a> {
                 }
             });
             if must && !is_err && !flying {
-                self.report_poison(ctx, &fl.poison[k], format!("acquisition through {:?} reported Ok for {:?} although a panic unwound during an exclusive hold on it since the last clear", ctx.acq.api, fl.poison[k]));
+                self.report_poison(ctx, &fl.poison[k], format!("acquisition through {:?} reported Ok for {:?} although a panic unwound during an exclusive hold on it since the last clear [{}]", ctx.acq.api, fl.poison[k], via_text(direct)));
             }
             if is_err && !may {
                 self.report_poison(ctx, &fl.poison[k], format!("acquisition through {:?} reported Err(poisoned) for {:?} although no panic unwound during any hold on it since the last clear", ctx.acq.api, fl.poison[k]));
+            }
+        }
+    }
+
+    /// C13: with no concurrent activity, try_lock succeeds iff no leaf is held in any mode,
+    /// try_read iff none is held exclusively (computed from the owner table before the call)
+    fn quiescent_pred(&self, ctx: &Ctx) -> (Vec<(Option<usize>, Vec<usize>)>, bool) {
+        let g = self.s().lock();
+        let table = g.owner_table();
+        let ok = ctx.flat.iter().all(|f| {
+            let l = &g.locks[f.lid];
+            if ctx.shared {
+                l.excl.is_none()
+            } else {
+                l.excl.is_none() && l.shared.is_empty()
+            }
+        });
+        (table, ok)
+    }
+
+    fn check_try_outcome(&self, ctx: &Ctx, q: &Option<(Vec<(Option<usize>, Vec<usize>)>, bool)>, succeeded: bool) {
+        if let Some((_, exp)) = q {
+            self.probe(|p| {
+                p.quiescent_tries += 1;
+                if succeeded {
+                    p.quiescent_try_ok += 1;
+                }
+            });
+            if *exp != succeeded {
+                self.s().report(Clause::TryOutcome, format!("{:?} on target {} {} in a quiescent state where it must {} (leaves {:?}, owner table {:?})", ctx.acq.api, ctx.acq.target, if succeeded { "succeeded" } else { "failed" }, if *exp { "succeed" } else { "fail" }, ctx.flat.iter().map(|f| f.lid).collect::<Vec<_>>(), q.as_ref().unwrap().0));
+            }
+        }
+    }
+
+    fn check_try_restored(&self, ctx: &Ctx, q: &Option<(Vec<(Option<usize>, Vec<usize>)>, bool)>, what: &str) {
+        if let Some((before, _)) = q {
+            let after = self.s().lock().owner_table();
+            if *before != after {
+                self.s().report(Clause::TryStateChanged, format!("{:?} on target {}: owner table {} is {:?}, before the call it was {:?}", ctx.acq.api, ctx.acq.target, what, after, before));
             }
         }
     }
@@ -275,26 +371,28 @@ impl<'r, 'a> St<'r, 'a> {
 
     fn note_user_panic(&mut self, ctx: &Ctx) {
         self.probe(|p| p.user_panics += 1);
-        let mut ids: Vec<PoisonId> = Vec::new();
-        for f in ctx.flat {
-            for p in &f.poison {
-                if !ids.contains(p) {
-                    ids.push(p.clone());
-                }
-            }
-        }
+        let spec = &self.r.world.spec;
+        let ids: Vec<PoisonId> = spec.poison_ids(&spec.targets[ctx.acq.target], if ctx.private { None } else { Some(ctx.acq.target) });
         let excl = !ctx.shared;
+        // the receiver's own Poisonable (if the receiver is one) is the outermost layer of every path
+        let receiver: Option<PoisonId> = if !ctx.root_poisonable {
+            None
+        } else {
+            match spec.resolve(&spec.targets[ctx.acq.target]) {
+                (TSpec::Leaf(l), _) => Some(PoisonId::Leaf(*l, 0)),
+                (TSpec::Coll { .. }, Some(i)) => Some(PoisonId::Coll(i, vec![])),
+                (TSpec::Coll { .. }, None) => Some(if ctx.private { PoisonId::Private(vec![]) } else { PoisonId::Coll(ctx.acq.target, vec![]) }),
+                _ => None,
+            }
+        };
+        let scoped = ctx.acq.api.is_scoped();
         let mut m = self.r.model.lock().unwrap();
         for p in &ids {
-            if let PoisonId::Private(_) = p {
-                let e = self.private_poison.entry(p.clone()).or_default();
-                e.may = true;
-                e.must |= excl;
-            } else {
-                let e = m.poison.entry(p.clone()).or_default();
-                e.may = true;
-                e.must |= excl;
-            }
+            let direct = !scoped || receiver.as_ref() == Some(p);
+            let e = if let PoisonId::Private(_) = p { self.private_poison.entry(p.clone()).or_default() } else { m.poison.entry(p.clone()).or_default() };
+            e.may = true;
+            e.must |= excl;
+            e.must_direct |= excl && direct;
         }
         let tid = self.tid;
         m.in_flight[tid] = ids;
@@ -334,7 +432,7 @@ impl<'r, 'a> St<'r, 'a> {
                         self.probe(|p| p.is_poisoned_true += 1);
                     }
                     if st.must && !v && !flying {
-                        s.report(Clause::PoisonModel, format!("is_poisoned() is false for {:?} although a panic unwound during an exclusive hold on it since the last clear", pid));
+                        s.report(Clause::PoisonModel, format!("is_poisoned() is false for {:?} although a panic unwound during an exclusive hold on it since the last clear [{}]", pid, via_text(st.must_direct)));
                     }
                     if v && !st.may {
                         s.report(Clause::PoisonModel, format!("is_poisoned() is true for {:?} although no panic unwound during any hold on it since the last clear", pid));
@@ -348,6 +446,7 @@ impl<'r, 'a> St<'r, 'a> {
                     let flying = m.flying(&pid);
                     let e = m.poison.entry(pid).or_default();
                     e.must = false;
+                    e.must_direct = false;
                     // a concurrent unwind may still set the flag after this clear: uncertain
                     e.may = flying;
                 }
@@ -491,6 +590,7 @@ impl<'r, 'a> Th<'r, 'a> {
             }
         };
         let kind = if api.is_try() { ApiKind::TryAcquire } else { ApiKind::Acquire };
+        let q = if api.is_try() && self.st.r.scn.profile == "C13" { Some(self.st.quiescent_pred(ctx)) } else { None };
         if !api.is_scoped() {
             s.api_begin(kind, ctx.retry);
             if !api.is_read() {
@@ -498,11 +598,15 @@ impl<'r, 'a> Th<'r, 'a> {
                 let rec = s.api_end();
                 match r {
                     Ok(mut g) => {
+                        self.st.check_try_outcome(ctx, &q, true);
                         self.st.after_acquire(ctx, &rec);
                         self.st.body(&self.cell, &mut g, ctx);
                         self.release(ctx, g, T::unlock);
+                        self.st.check_try_restored(ctx, &q, "after the guard was released");
                     }
                     Err(k) => {
+                        self.st.check_try_outcome(ctx, &q, false);
+                        self.st.check_try_restored(ctx, &q, "after the failed attempt");
                         self.st.after_try_fail(ctx, &rec);
                         self.kh.key = Some(k);
                     }
@@ -512,11 +616,15 @@ impl<'r, 'a> Th<'r, 'a> {
                 let rec = s.api_end();
                 match r {
                     Ok(mut g) => {
+                        self.st.check_try_outcome(ctx, &q, true);
                         self.st.after_acquire(ctx, &rec);
                         self.st.body(&self.cell, &mut g, ctx);
                         self.release(ctx, g, T::unlock_read);
+                        self.st.check_try_restored(ctx, &q, "after the guard was released");
                     }
                     Err(k) => {
+                        self.st.check_try_outcome(ctx, &q, false);
+                        self.st.check_try_restored(ctx, &q, "after the failed attempt");
                         self.st.after_try_fail(ctx, &rec);
                         self.kh.key = Some(k);
                     }
@@ -608,6 +716,8 @@ impl<'r, 'a> Th<'r, 'a> {
         drop(stc);
         let rec = s.api_end();
         let held = s.held();
+        self.st.check_try_outcome(ctx, &q, outcome.is_ok());
+        self.st.check_try_restored(ctx, &q, "after the scoped call returned");
         match outcome {
             Ok(()) => {
                 if count.get() != 1 {
@@ -708,9 +818,14 @@ impl<'r, 'a> Th<'r, 'a> {
             return;
         }
         let retry = world.spec.root_kind(spec_t) == Some(CollKind::Retry);
+        let sorting = matches!(world.spec.root_kind(spec_t), Some(CollKind::Boxed) | Some(CollKind::Ref));
         let flat_owned: Vec<FlatLeaf> = flat.to_vec();
-        let ctx = Ctx { acq, flat: &flat_owned, retry, shared: acq.api.is_read(), private: acq.rebuild };
-        let _ = ctx.private;
+        let root_poisonable = match world.spec.resolve(spec_t).0 {
+            TSpec::Leaf(l) => world.spec.leaves[*l].layers() > 0,
+            TSpec::Coll { poison, .. } => *poison,
+            _ => false,
+        };
+        let ctx = Ctx { acq, flat: &flat_owned, retry, sorting, root_poisonable, shared: acq.api.is_read(), private: acq.rebuild };
         self.st.private_poison.clear();
         self.dispatch(node, &ctx);
     }
@@ -1001,7 +1116,7 @@ pub fn run_scenario(scn: &Scenario) -> RunResult {
         scn,
         sched: &sched,
         world: &world,
-        model: Mutex::new(Model { poison: BTreeMap::new(), in_flight: vec![Vec::new(); nthreads] }),
+        model: Mutex::new(Model { poison: BTreeMap::new(), in_flight: vec![Vec::new(); nthreads], order: Default::default() }),
         probes: Mutex::new(Probes::default()),
         flats,
     };
